@@ -19,6 +19,10 @@ P = {
   "The real UxDataArray.integrate runs over a real (cloned) Grid whose compute_face_areas executes for real; only the quadrature kernel is an uninterpreted non-negative area function A(face, rule, order). z3 shows, for every data array in the bound and every rule/order, that the result is sum_f A(f,rule,order)*v[...,f] with exactly the face dimension removed, same name and grid; that node- and edge-centred data are rejected even when element counts coincide; and that an earlier area computation with other arguments on the same grid (history) does not change the result.",
   "Bounds: 3 fixed small grids (incl. n_face=n_node and n_face=n_node=n_edge), 0..3 leading dims of length 2, rules {triangular,gaussian} x orders {1,4,8}, float data arbitrary reals, int data in [-3,3]. Abstracted obligation: sat models are candidates judged by a concrete replay against the low-level area kernel. Trusted: symnp.einsum (validated against numpy each run), z3.",
   "DESIGN.md §2 C06"),
+ "C16": (True,
+  "edge_node/edge_face tables, face centres and data are symbolic, so 'which node/face does entry e refer to' is a solver variable: z3 shows that the real distance kernels apply the great-circle formula (trig uninterpreted, degrees converted exactly once) to edge e's own two nodes / the centres of its own two faces, 0 on boundary edges, source-supplied distances passed through; and that difference/gradient equal |v[a]-v[b]| (/distance) per leading index, 0 on boundary edges, unit norm when normalised, on edge-dimensioned results of the same grid.",
+  "Bounds: 5 nodes, 3 faces, 3-5 edges with arbitrary end nodes/adjacent faces, leading dims up to (2,2), float and int data, coordinates pairwise >=3 degrees apart (genericity), optional source-supplied xyz on a sphere of arbitrary radius. Distance obligations are abstracted (UF trig): sat models are candidates judged by a replay against an independent chord-length oracle (1e-6). Trusted: shim masked/fancy indexing (validated against numpy each run), z3 NRA for the normalisation clause.",
+  "DESIGN.md §2 C16"),
 }
 NA = {
  "C10": "Quantifies over arbitrary compositions of xarray's own operations; whether the grid survives is decided inside xarray/numpy C-level dispatch which symbolic values cannot cross, and there is no bounded uxarray kernel to encode (DESIGN.md §4).",
